@@ -230,6 +230,205 @@ partial def chainLoop (stdin : IO.FS.Stream) (s : State) (seen : List Str) : IO 
         IO.println ("| " ++ d)
       chainLoop stdin r.st seen'
 
+/-! ### pure mode -/
+
+def be8 (n : Nat) : List Nat := (List.range 8).map (fun i => (n / 256 ^ (7 - i)) % 256)
+
+def coinsStr (cs : List (Str × Nat)) : String :=
+  let nz := cs.filter (fun c => c.2 != 0)
+  if nz.isEmpty then "-" else ",".intercalate ((sortBy (fun a b => strLt a.1 b.1) nz).map (fun c => toString c.2 ++ ":" ++ String.ofList c.1))
+
+def parseCoins (tok : String) : List (Str × Nat) :=
+  if tok == "-" || tok.isEmpty then []
+  else (tok.splitOn ",").map (fun c =>
+    let ad := c.splitOn ":"
+    ((ad.getD 1 "").toList, natTok (ad.getD 0 "0")))
+
+def pureStep (c : Cache) (l : String) : Cache × String :=
+  let f := (l.splitOn " ").filter (· != "")
+  let g (i : Nat) : String := f.getD i ""
+  match g 0 with
+  | "normhex" => (c, "ok " ++ String.ofList (normalizeHex (strTok (g 1))))
+  | "hexbytes" =>
+    let s := strTok (g 1)
+    (c, "ok " ++ String.ofList (bytesHex (hexAddrBytes s)) ++ " null=" ++ (if hexAddrIsNull s then "1" else "0"))
+  | "parsenft" => (c, match parseNftId (strTok (g 1)) with
+      | some n => "ok " ++ nftStr n
+      | none => "err")
+  | "fmtnft" => (c, "ok " ++ encStr (formatNft { chain := strTok (g 1), contract := normalizeHex (strTok (g 2)), token := normalizeHex (strTok (g 3)) }))
+  | "parseentry" => (c, match parseEntry (strTok (g 1)) with
+      | some e => "ok " ++ nftStr e.nft ++ " " ++ String.ofList e.owner
+      | none => "err")
+  | "validvd" =>
+    let chains := if g 2 == "-" then [] else ((g 2).splitOn ",").map strTok
+    (c, "ok " ++ (if validateVoteData chains (parseVD (g 1)) then "true" else "false"))
+  | "hash" => (c, "ok " ++ String.ofList (hashOf sha (strTok (g 1)) (parseVD (g 2))))
+  | "fhash" => (c, "ok " ++ String.ofList (hashOf sha (strTok (g 1)) (parseVD (g 2))))
+  | "trim" => (c, "ok " ++ encStr (trimHexZeroes (strTok (g 1))))
+  | "fmtentry" => (c, match feederEntry (strTok (g 1)) (strTok (g 2)) with
+      | some e => "ok " ++ encStr e
+      | none => "err")
+  | "calcfees" =>
+    let q := (decTok (g 1)).toNat
+    let fees := parseCoins (g 2)
+    (c, "ok gas=" ++ coinsStr (fees.map (fun x => (x.1, collectorPart q x.2))) ++ " oracle=" ++ coinsStr (fees.map (fun x => (x.1, oraclePart q x.2))))
+  | "roundstart" => (c, "ok " ++ toString (roundStart (natTok (g 1)) (natTok (g 2))))
+  | "voteperiod" => (c, "ok " ++ toString (prevoteEnd (natTok (g 1)) (natTok (g 2))) ++ " " ++ toString (voteEnd (natTok (g 1)) (natTok (g 2))))
+  | "utxrkey" => (c, "ok " ++ String.ofList (bytesHex ([Facts.utxrPrefix] ++ be8 (natTok (g 1)) ++ be8 (natTok (g 2)))))
+  | "reqkey" => (c, "ok " ++ String.ofList (bytesHex ([Facts.utxrRequestIdPrefix] ++ be8 (natTok (g 1)) ++ (strTok (g 2)).map (fun ch => ch.toNat % 256))))
+  | "oparams" => (c, if oparamsValid (natTok (g 1)) (decTok (g 2)) (decTok (g 3)) (natTok (g 4)) (natTok (g 5)) then "ok" else "err")
+  | "sparams" => (c, if sparamsValid (one18 : Nat) (if g 1 == "-" then [] else ((g 1).splitOn ",").map strTok) then "ok" else "err")
+  | "cnew" => ({ cap := (natTok (g 1) : Int), items := [] }, "ok")
+  | "cput" => (c.put (strTok (g 1)) ((intTok (g 2)).getD 0) (natTok (g 3)), "ok")
+  | "cget" => (c, match c.get (natTok (g 1)) with
+      | some b => if b.hash.isEmpty && b.number == 0 then "miss" else "ok " ++ encStr b.hash ++ " " ++ toString b.number
+      | none => "miss")
+  | _ => (c, "bad-op")
+
+partial def pureLoop (stdin : IO.FS.Stream) (c : Cache) : IO Unit := do
+  let line ← stdin.getLine
+  if line.isEmpty then return ()
+  let l := line.trimAscii.toString
+  if l.isEmpty || l.startsWith "#" then pureLoop stdin c
+  else
+    let r := pureStep c l
+    IO.println ("> " ++ l)
+    IO.println ("< " ++ r.2)
+    pureLoop stdin r.1
+
+/-! ### ante mode -/
+
+def kindOfName : String → Kind
+  | "prevote" => .prevote | "vote" => .vote | "consent" => .consent
+  | "createtenant" => .createTenant | "createtenantmc" => .createTenantMc | "deposit" => .deposit | "record" => .record
+  | "cancel" => .cancel | "addadmin" => .addAdmin | "rmadmin" => .removeAdmin | "setperiod" => .setPeriod
+  | "send" => .send | "exec" => .exec | "grant" => .grant | "createval" => .createVal | "delegate" => .delegate
+  | "ethtx" => .ethTx | _ => .vesting
+
+instance : Inhabited Msg := ⟨.createVal "bad"⟩
+
+/-- recursive-descent parser of message expressions: name(arg~arg~[msg|msg]) -/
+partial def parseMsgs (cs : List Char) : List Msg × List Char :=
+  match cs with
+  | [] => ([], [])
+  | ']' :: _ => ([], cs)
+  | _ =>
+    let (m, rest) := parseMsg cs
+    let rest := match rest with
+      | '|' :: r => r
+      | r => r
+    let (ms, rest2) := parseMsgs rest
+    (m :: ms, rest2)
+where
+  parseMsg (cs : List Char) : Msg × List Char :=
+    let name := String.ofList (cs.takeWhile (· != '('))
+    let rest := (cs.dropWhile (· != '(')).drop 1
+    let (args, inner, rest) := parseArgs rest [] []
+    let a (i : Nat) : String := args.getD i ""
+    let m : Msg := match name with
+      | "prevote" => .op .prevote (.prevote (a 0) (a 1) (strTok (a 2)) (natTok (a 3)))
+      | "vote" => .op .vote (.vote (a 0) (a 1) (strTok (a 2)) (natTok (a 3)) (parseVD (a 4)))
+      | "consent" => .op .consent (.consent (a 0) (a 1))
+      | "createtenant" => .op .createTenant (.createTenant (a 0) (strTok (a 1)) (natTok (a 2)) none)
+      | "createtenantmc" => .op .createTenantMc (.createTenant (a 0) (strTok (a 1)) (natTok (a 2)) (some (strTok (a 3))))
+      | "deposit" => .op .deposit (.deposit (a 0) (natTok (a 1)) (intTok (a 2)) (strTok (a 3)))
+      | "record" => .op .record (.record (a 0) (natTok (a 1)) (strTok (a 2)) (intTok (a 3)) (strTok (a 4)) (strTok (a 5)) (strTok (a 6)) (strTok (a 7)))
+      | "cancel" => .op .cancel (.cancel (a 0) (natTok (a 1)) (strTok (a 2)))
+      | "addadmin" => .op .addAdmin (.addAdmin (a 0) (natTok (a 1)) (a 2))
+      | "rmadmin" => .op .removeAdmin (.removeAdmin (a 0) (natTok (a 1)) (a 2))
+      | "setperiod" => .op .setPeriod (.setPeriod (a 0) (natTok (a 1)) (natTok (a 2)))
+      | "send" => .send (a 0) (a 1) ((intTok (a 2)).getD 0) (strTok (a 3))
+      | "exec" => .exec (a 0) inner
+      | "grant" => .grant (a 0) (a 1) (kindOfName (a 2))
+      | "createval" => .createVal (a 0)
+      | "delegate" => .delegate (a 0) (natTok ((a 1).drop 1).toString) ((intTok (a 2)).getD 0)
+      | _ => .createVal "bad"
+    (m, rest)
+  parseArgs (cs : List Char) (args : List String) (inner : List Msg) : List String × List Msg × List Char :=
+    match cs with
+    | [] => (args, inner, [])
+    | ')' :: r => (args, inner, r)
+    | '~' :: r => parseArgs r args inner
+    | '[' :: r =>
+      let (ms, rest) := parseMsgs r
+      parseArgs (rest.drop 1) args ms
+    | _ =>
+      let tok := cs.takeWhile (fun c => c != '~' && c != ')')
+      parseArgs (cs.dropWhile (fun c => c != '~' && c != ')')) (args ++ [String.ofList tok]) inner
+
+def parseTx (l : String) : Tx :=
+  let f := (l.splitOn " ").filter (· != "")
+  let kv (k : String) : String := match f.find? (fun t => t.startsWith (k ++ "=")) with
+    | some t => (t.drop (k.length + 1)).toString
+    | none => ""
+  let msgs := (parseMsgs (kv "msgs").toList).1
+  let payer := if kv "payer" == "-" || kv "payer" == "" then none else some (kv "payer")
+  let fee := if kv "fee" == "-" then [] else (parseCoins (kv "fee"))
+  let tx0 : Tx := { msgs := msgs, signers := [], payer := payer, fee := fee, gas := natTok (kv "gas") }
+  let signers := if kv "signers" == "auto" then (requiredSigners tx0).getD []
+    else ((kv "signers").splitOn ",").map (fun t => (decodeAcc t).getD t)
+  { tx0 with signers := signers }
+
+def dumpAnte (a : AState) : List String :=
+  let s := a.s
+  let holders : List String := (List.range 10).map (fun i => "a" ++ toString i) ++ (List.range 5).map (fun i => "o" ++ toString i) ++
+    s.st.tenants.map (fun t => treasuryName t.id) ++ ["pool", "collector"]
+  let denoms : List Str := ["uusdc".toList, "setl".toList]
+  ["H " ++ toString s.h] ++ dumpModules s ++
+  holders.flatMap (fun h => denoms.filterMap (fun d => if s.bank h d = 0 then none else some ("B " ++ h ++ " " ++ encStr d ++ " " ++ toString (s.bank h d)))) ++
+  ["SUP =uusdc " ++ toString (a.supply "uusdc".toList), "NV " ++ toString s.vals.length, "NG " ++ toString a.grants.length]
+
+/-- a real block: end-blockers, then the next block's begin-blocker sweeps the fee collector into distribution -/
+def realBlock (a : AState) : AState × StepRes :=
+  let r := blockStep a.s
+  let s' := { r.st with bank := fun h d => if h = "collector" then 0 else r.st.bank h d }
+  ({ a with s := s' }, r)
+
+def anteInit (pr : Nat) (cr : Bool) : AState :=
+  let s0 := initState pr cr
+  let funded : Bank := fun h d => if d = "uusdc".toList && ((List.range 10).any (fun i => h = "a" ++ toString i) || (List.range 5).any (fun i => h = "o" ++ toString i)) then 1000000000000000 else 0
+  let a0 : AState := { s := { s0 with bank := funded }, grants := [], supply := fun d => if d = "uusdc".toList then 15000000000000000 else 0, prices := Facts.defaultGasPrices }
+  (realBlock a0).1
+
+partial def anteLoop (stdin : IO.FS.Stream) (a : AState) : IO Unit := do
+  let line ← stdin.getLine
+  if line.isEmpty then return ()
+  let l := line.trimAscii.toString
+  if l.isEmpty || l.startsWith "#" then anteLoop stdin a
+  else
+    IO.println ("> " ++ l)
+    if l.startsWith "tx " then
+      let tx := parseTx l
+      let r := deliverTx sha a tx
+      IO.println ("< " ++ (if r.ok then "ok" ++ (match r.gasUsed with | some g => " gas=" ++ toString g | none => "") else "err"))
+      for d in dumpAnte r.a do
+        IO.println ("| " ++ d)
+      anteLoop stdin r.a
+    else if l == "block" then
+      let hb := a.s.h
+      let (a', r) := realBlock a
+      IO.println ("< " ++ (match r.out with
+        | .panic => "panic"
+        | _ => "ok h=" ++ toString hb ++ " settled=" ++ joinOrDash (r.settled.map pairStr) ++ " dropped=" ++ joinOrDash (r.dropped.map pairStr) ++
+            " filled=" ++ joinOrDash (r.filled.map filledStr) ++ " inv=ok"))
+      for d in dumpAnte a' do
+        IO.println ("| " ++ d)
+      anteLoop stdin a'
+    else match parseOp l with
+      | none =>
+        IO.println "< bad-op"
+        anteLoop stdin a
+      | some op =>
+        let r := step sha a.s op
+        let a' : AState := { a with s := r.st, supply := match op, r.out with
+          | .fund _ amt d, .ok _ => fupd a.supply d (a.supply d + amt.toNat)
+          | .fundPool amt d, .ok _ => fupd a.supply d (a.supply d + amt.toNat)
+          | _, _ => a.supply }
+        IO.println ("< " ++ resultLine op a.s.h r)
+        for d in dumpAnte a' do
+          IO.println ("| " ++ d)
+        anteLoop stdin a'
+
 def main (args : List String) : IO Unit := do
   let stdin ← IO.getStdin
   match args with
@@ -238,4 +437,10 @@ def main (args : List String) : IO Unit := do
     for d in dumpChain s [] do
       IO.println ("| " ++ d)
     chainLoop stdin s []
-  | _ => IO.eprintln "usage: drv chain <powerReduction> <constantPower>"
+  | ["pure"] => pureLoop stdin { cap := 0, items := [] }
+  | ["ante"] =>
+    let a := anteInit 1000000 true
+    for d in dumpAnte a do
+      IO.println ("| " ++ d)
+    anteLoop stdin a
+  | _ => IO.eprintln "usage: drv chain <powerReduction> <constantPower> | pure | ante"
